@@ -122,3 +122,16 @@ Definition first_rejected (persite : list N) : N :=
   | Some c => c
   | None => 0%N
   end.
+
+(* ---- setups whose VERDICT depends on the call alone - the directive, the server block, the position of the
+   key among the block's keys (controller.ServerBlockKeyIndex), the key itself (controller.Key) and the block's
+   tokens - and not on what earlier setups have built: `tls { wildcard }` (the number of labels of the key's host
+   name), `tls self_signed` (the host name as SAN), `bind`, `redir` with {host}, `on` (OncePerServerBlock: the
+   first key only).  What the call BUILDS ([f], on acceptance and on rejection alike) is arbitrary. *)
+Section KeyVerdict.
+Context {A St : Type}.
+Variable v : @call A -> bool.
+Variable f : @call A -> St -> St.
+Definition vsetup (d : bytes) (i j : nat) (k : bytes) (toks : list A) (s : St) : outcome St :=
+  if v (d, i, j, k, toks) then Cont (f (d, i, j, k, toks) s) else Stop (f (d, i, j, k, toks) s).
+End KeyVerdict.
